@@ -588,9 +588,40 @@ def rule_port_widths(run):
     from . import c12
     c12.rule_port_widths(run)    # port associations have matching widths
     c12.rule_empty_interface(run)   # no empty interface list, every instantiation statement is terminated
+    c12.rule_unit_names(run)        # no two design units with one (case-insensitive) name: VHDL identifiers are case-insensitive
 
 
-RULES = [rule_reserved, rule_vocabulary, rule_names, rule_templates, rule_choices, rule_sensitivity, rule_buffers, rule_castmatrix, rule_concat_cast, rule_visit_unconditional, rule_shadow, rule_hint_position, rule_sensitivity_merge, rule_interface_names, rule_refspec, rule_lexical, rule_visit_stateless, rule_port_widths]
+def rule_slice_direction(run):
+    """All objects are declared `downto`; a slice whose bounds are equal (one element) must therefore be written
+    `(k downto k)` - `(k to k)` has the wrong direction and is rejected by VHDL analysers."""
+    run.begin("C06.l", "a constant slice is emitted with the declared direction: start >= stop (including the one-element slice) is `downto`", floor=1)
+    vh = run.idx.mod("cohdl/_compiler/backend/vhdl/_vhdl_repr.py")
+    f = vh.func("VhdlScope._format_ref")
+    n = 0
+    for node in ast.walk(f.node):
+        tests = []
+        if isinstance(node, (ast.If, ast.IfExp)):
+            body = node.body if isinstance(node.body, list) else [node.body]
+            orelse = node.orelse if isinstance(node.orelse, list) else [node.orelse]
+            tb, te = " ".join(src(x) for x in body), " ".join(src(x) for x in orelse)
+            if "downto" in tb + te and isinstance(node.test, ast.Compare) and len(node.test.ops) == 1:
+                l, r_ = src(node.test.left), src(node.test.comparators[0])
+                if not (l.endswith(".start") or l.endswith(".stop")):
+                    continue
+                op = type(node.test.ops[0]).__name__
+                down_in_body = "downto" in tb
+                # which branch does start == stop take?
+                eq_true = op in ("GtE", "LtE", "Eq")
+                eq_branch_down = down_in_body if eq_true else ("downto" in te)
+                n += 1
+                run.ob(eq_branch_down, "VhdlScope._format_ref", file=vh.rel, line=node.lineno, detail="one-element-slice",
+                       expected="start == stop is emitted as `downto`", found=f"`{src(node.test)}` sends start == stop to the `to` branch" if not eq_branch_down else "ok")
+    if n == 0:
+        raise AnalysisError("anchor vanished: direction choice of constant slices in VhdlScope._format_ref")
+    run.end()
+
+
+RULES = [rule_reserved, rule_vocabulary, rule_names, rule_templates, rule_choices, rule_sensitivity, rule_buffers, rule_castmatrix, rule_concat_cast, rule_visit_unconditional, rule_shadow, rule_hint_position, rule_sensitivity_merge, rule_interface_names, rule_refspec, rule_lexical, rule_visit_stateless, rule_port_widths, rule_slice_direction]
 LEVEL = "other"
 EXPLANATION = (
     "Legality clauses that are properties of the back end's own tables and templates, decided for all designs: the "
